@@ -3,26 +3,34 @@
 //! E1 (choice DFS, deviation-bounded) over hand-assembled, harness-signed tokens:
 //!
 //! (a) `issuer`: `SdJwtCredentialValidator::{validate_credential, verify_signature}` — the binding core
-//!     {signing key, kid, method_id override, method_scope, credential issuer, nonce header x option} + dates
-//!     (bounds set/unset, owned clock) + structure + status x StatusCheck + FailFast + five concealable claims (subject
-//!     property, nested member, array element, member of a concealed object, that object) each presented/withheld +
-//!     tampering {forged value, foreign, not base64url, not an array, duplicated, reversed} + `_sd_alg` + attached KB-JWT.
-//! (b) `issuer-core`: the FULL product of the binding core (x entry point), crossed with <= 0 (quick) /
-//!     <= 1 (thorough) other deviations.
+//!     {entry point / trusted issuer list ([I], [J,I], [I,J], []), signing key, kid, method_id override, method_scope,
+//!     credential issuer, nonce header x option} + dates (bounds set/unset, owned clock) + structure + status x StatusCheck
+//!     + FailFast + five concealable claims (subject property, nested member, array element, member of a concealed object,
+//!     that object) each presented/withheld + tampering {forged value, foreign, not base64url, not an array, same content
+//!     in other bytes, duplicated, reversed} + decoy digests + one digest occurring twice in the signed claims + `_sd_alg`
+//!     + attached KB-JWT. I's document also lists a method under J's DID (`did:vx:issuer2#jx`, a key only I holds): with
+//!     both issuers trusted a token naming J and signed with that key must not pass.
+//! (b) `issuer-core`: the FULL product of the binding core, crossed with <= 0 (quick) / <= 1 (thorough) other deviations.
 //! (c) `kb`: `validate_key_binding_jwt` — KB-JWT absent/present, typ, alg, signing key (holder key, another key of the
-//!     holder, a foreign document's key, payload changed after signing), kid, method_id override, scope, supplied holder
-//!     document, sd_hash {right, other disclosure subset, garbage, token only, reversed order}, nonce/aud claim x option,
-//!     iat x {earliest, latest} bound x owned clock, iat out of the year range, disclosure subsets, `_sd_alg`.
+//!     holder, a foreign document's key, payload changed after signing, the key of the foreign-DID method listed in the
+//!     holder document), kid, method_id override, scope, supplied holder document, sd_hash {right, other disclosure
+//!     subset, garbage, token only, reversed order}, nonce claim x option, aud claim {string, absent, array} x option,
+//!     iat {integer, out of the year range, string, integral / fractional float, absent} x {earliest, latest} bound x owned
+//!     clock, additional claims, disclosure subsets, `_sd_alg`.
 //! (d) `kb-core`: the FULL product {typ, alg, signing key, kid, override, scope, holder document} crossed with <= 0 / <= 1
 //!     other deviations.
 //!
 //! Oracle: the set of FALSE conditions is computed from the choices and a hand-written table of the documents (never by
 //! calling the resolver). accepted => no stated condition is false, and what is returned equals what was signed (the
 //! credential with exactly the withheld claims missing / the KB claims). rejected => (unless the case contains an
-//! alternative the statement leaves open) every reported error blames a condition that really is false — this is also
-//! the liveness direction: with no false condition there is nothing an error could rightly blame. Never a panic.
-//! Issuer side additionally: with unobjectionable disclosures the verdict (accepted / the error variants) equals that of
-//! `JwtCredentialValidator` on the same claims with nothing concealed ("the same rules as a plain JWT credential").
+//! alternative the statement leaves open) every reported error whose variant names a condition blames one that really is
+//! false; an error of a variant the check does not know is judged only when NO condition is false (then nothing could be
+//! blamed) — this is also the liveness direction. Never a panic. Which of several false conditions is reported, the order
+//! of several errors and error messages are not judged (messages only refine the class of `JwsDecodingError`, and a
+//! message the check does not recognise falls back to the coarse class).
+//! Issuer side additionally: with unobjectionable disclosures accepted/rejected equals the verdict of
+//! `JwtCredentialValidator` on the same claims with nothing concealed ("the same rules as a plain JWT credential"); whether
+//! both report the same error variants is recorded in the histogram only.
 
 use identity_core::common::{Object, Timestamp, Url};
 use identity_core::convert::FromJson;
@@ -38,7 +46,6 @@ use identity_document::document::CoreDocument;
 use identity_document::service::Service;
 use identity_document::verifiable::JwsVerificationOptions;
 use identity_eddsa_verifier::EdDSAJwsVerifier;
-use identity_verification::jose::error::Error as JoseError;
 use identity_verification::{MethodRef, MethodScope, VerificationMethod};
 use once_cell::sync::Lazy;
 use serde::{Deserialize, Serialize};
@@ -66,7 +73,6 @@ const I: &str = "did:vx:issuer";
 const J: &str = "did:vx:issuer2";
 const H: &str = "did:vx:holder";
 const F: &str = "did:vx:mallory";
-const FOREIGN: &str = "did:vx:foreign";
 
 /// One line of the hand-written document table the oracle resolves against.
 struct MInfo {
@@ -88,7 +94,17 @@ const METHODS: &[MInfo] = &[
   MInfo { doc: H, id: "did:vx:holder#h2", key: 8, general: true, assertion: false, authentication: false },
   MInfo { doc: H, id: "did:vx:foreign#hf", key: 9, general: true, assertion: false, authentication: false },
   MInfo { doc: F, id: "did:vx:mallory#h1", key: 10, general: false, assertion: false, authentication: true },
+  // a method under the DID of the OTHER issuer, listed in I's document with a key only I holds
+  MInfo { doc: I, id: "did:vx:issuer2#jx", key: 11, general: true, assertion: true, authentication: false },
 ];
+/// Is a method with exactly this id listed in `doc` (in whatever relationship)?
+fn listed(doc: &str, id: &str) -> bool {
+  METHODS.iter().any(|m| m.doc == doc && m.id == id)
+}
+/// The document that lists key number `key`.
+fn key_doc(key: u8) -> &'static str {
+  METHODS.iter().find(|m| m.key == key).map(|m| m.doc).unwrap_or("")
+}
 
 #[derive(Clone, Copy, PartialEq, Debug)]
 enum Scope {
@@ -147,7 +163,7 @@ fn method(id: &str, key: &EdKey) -> VerificationMethod {
 }
 
 static WORLD: Lazy<World> = Lazy::new(|| {
-  let keys: Vec<EdKey> = (0..=10u8).map(EdKey::new).collect();
+  let keys: Vec<EdKey> = (0..=11u8).map(EdKey::new).collect();
   let build = |did: &str| {
     let mut b = CoreDocument::builder(Object::new()).id(CoreDID::parse(did).unwrap());
     for m in METHODS.iter().filter(|m| m.doc == did) {
@@ -257,8 +273,47 @@ struct Built {
   disclosures: Vec<Disclosure>,
 }
 
+/// How the issuer dressed the digests up (hand-edited into the payload before it is signed).
+#[derive(Clone, Copy, Default)]
+struct Dress {
+  /// decoy digests (matched by no disclosure) in the subject's `_sd` (front and back), in the nested `_sd` and as array
+  /// elements (front and back)
+  decoys: bool,
+  /// 1: the digest of claim 0 twice in the subject's `_sd`; 2: also in the nested object's `_sd`; 3: the digest of the
+  /// array element twice in the array
+  dup: usize,
+}
+
 /// SD-encode `claims` concealing the N claims (if the subject carries them).
 fn sd_encode(claims: &Value, concealable: bool, sd_alg: usize) -> Built {
+  sd_encode_dressed(claims, concealable, sd_alg, Dress::default())
+}
+
+fn sd_encode_dressed(claims: &Value, concealable: bool, sd_alg: usize, dress: Dress) -> Built {
+  let mut built = sd_encode_plain(claims, concealable, sd_alg);
+  if concealable && (dress.decoys || dress.dup != 0) {
+    let mut v: Value = serde_json::from_str(&built.payload).unwrap();
+    let digest = |i: usize| json!(b64_sha256(&built.disclosures[i].to_string()));
+    let subj = &mut v["vc"]["credentialSubject"];
+    if dress.decoys {
+      subj["_sd"].as_array_mut().expect("subject _sd").push(json!(b64_sha256("decoy-1")));
+      subj["_sd"].as_array_mut().unwrap().insert(0, json!(b64_sha256("decoy-2")));
+      subj["degree"]["_sd"].as_array_mut().expect("nested _sd").push(json!(b64_sha256("decoy-3")));
+      subj["langs"].as_array_mut().expect("array").insert(0, json!({"...": b64_sha256("decoy-4")}));
+      subj["langs"].as_array_mut().unwrap().push(json!({"...": b64_sha256("decoy-5")}));
+    }
+    match dress.dup {
+      1 => subj["_sd"].as_array_mut().expect("subject _sd").push(digest(0)),
+      2 => subj["degree"]["_sd"].as_array_mut().expect("nested _sd").push(digest(0)),
+      3 => subj["langs"].as_array_mut().expect("array").push(json!({"...": digest(2)})),
+      _ => {}
+    }
+    built.payload = v.to_string();
+  }
+  built
+}
+
+fn sd_encode_plain(claims: &Value, concealable: bool, sd_alg: usize) -> Built {
   let mut enc = SdObjectEncoder::new(&claims.to_string()).expect("encoder");
   let mut disclosures = Vec::new();
   if concealable {
@@ -309,6 +364,9 @@ enum Tamper {
   Foreign,
   GarbageNotB64,
   GarbageNotArray,
+  /// the JSON content of a genuine disclosure in other bytes (no blanks after the commas): what is presented does not
+  /// hash to a signed digest
+  Reencoded,
   Duplicated,
   Reversed,
 }
@@ -334,6 +392,24 @@ fn present(all: &[Disclosure], presented: &[bool; N], tamper: Tamper) -> Vec<Str
     Tamper::Foreign => out.push(Disclosure::new("c2FsdC1mb3JlaWduLTAxMjM0NTY3OA".into(), Some("admin".into()), json!(true)).to_string()),
     Tamper::GarbageNotB64 => out.push("%%% not base64url %%%".into()),
     Tamper::GarbageNotArray => out.push(fx::b64(br#"{"salt":"x","name":"admin","value":true}"#)),
+    Tamper::Reencoded => {
+      let idx = presented.iter().position(|p| *p).unwrap_or(0);
+      let (salt, name, value) = match all.get(idx) {
+        Some(d) => (d.salt.clone(), d.claim_name.clone(), d.claim_value.clone()),
+        None => (SALTS[0].to_string(), Some("name".to_string()), json!("Alice")),
+      };
+      let compact_json = match name {
+        Some(n) => format!("[{},{},{}]", json!(salt), json!(n), value),
+        None => format!("[{},{}]", json!(salt), value),
+      };
+      let re = fx::b64(compact_json.as_bytes());
+      assert!(all.iter().all(|d| d.to_string() != re), "re-encoded disclosure equals a genuine one");
+      if presented.iter().any(|p| *p) && !all.is_empty() {
+        out[0] = re;
+      } else {
+        out.push(re);
+      }
+    }
     Tamper::Duplicated => {
       let first = out[0].clone();
       out.push(first);
@@ -348,16 +424,24 @@ fn names(set: &BTreeSet<String>) -> BTreeSet<String> {
 }
 
 // ------------------------------------------------------------------------------------------------ (a),(b) issuer side
-const ENTRY: [&str; 3] = [
+/// Entry point and the list of trusted issuer documents handed to it (keys carry the part before '[').
+const ENTRY: [&str; 5] = [
   "SdJwtCredentialValidator::validate_credential",
   "SdJwtCredentialValidator::verify_signature",
-  "SdJwtCredentialValidator::verify_signature[2 issuers]",
+  "SdJwtCredentialValidator::verify_signature[J,I]",
+  "SdJwtCredentialValidator::verify_signature[I,J]",
+  "SdJwtCredentialValidator::verify_signature[]",
 ];
-const ISSUER_CORE_DIMS: [usize; 7] = [3, 6, 9, 4, 4, 5, 5];
+const ENTRY_SHORT: [&str; 5] = ["validate", "verify[I]", "verify[J,I]", "verify[I,J]", "verify[]"];
+const ISSUER_CORE_DIMS: [usize; 7] = [5, 7, 10, 5, 4, 5, 5];
 /// (nonce in the protected header, nonce in the options): all five patterns of two values up to renaming.
 const NONCE_PAIRS: [(Option<&str>, Option<&str>); 5] =
   [(None, None), (Some("nonce-1"), Some("nonce-1")), (Some("nonce-1"), None), (None, Some("nonce-1")), (Some("nonce-1"), Some("nonce-2"))];
 
+/// The condition an error names. `JwsDecodingError` is what the validator uses for the nonce and for undecodable
+/// disclosures: its message refines the class where it is one of the two known today, any other message is the coarse
+/// class `jws-wellformed` (justified when the nonce or the disclosures are at fault). `other`: a variant the check does
+/// not know (judged only when nothing is false).
 fn blame_issuer(e: &JwtValidationError) -> &'static str {
   match e {
     JwtValidationError::JwsDecodingError(src) => {
@@ -382,14 +466,23 @@ fn blame_issuer(e: &JwtValidationError) -> &'static str {
     _ => "other",
   }
 }
+/// Is blaming class `b` justified by the set of false condition names?
+fn blame_justified(b: &str, false_names: &BTreeSet<String>) -> bool {
+  match b {
+    "other" => !false_names.is_empty(),
+    "jws-wellformed" => false_names.contains("nonce") || false_names.contains("disclosures"),
+    _ => false_names.contains(b),
+  }
+}
 
 fn issuer_body(ctx: &Ctx, src: &mut Src, mk: &dyn Fn(Vec<u32>) -> Case, part: &'static str) {
   let w = &*WORLD;
   // ---- binding core
-  let entry = src.core("entry", 3);
-  let sig = src.core("signing-key", 6); // m1, m2, m3, m4(foreign-DID method), J's key, m1 + payload changed after signing
-  let kid = src.core("kid", 9);
-  let ovr = src.core("method_id", 4);
+  let entry = src.core("entry", 5);
+  // m1, m2, m3, m4 (foreign-DID method), J's key, m1 + payload changed after signing, jx (J-DID method listed in I)
+  let sig = src.core("signing-key", 7);
+  let kid = src.core("kid", 10);
+  let ovr = src.core("method_id", 5);
   let scope = Scope::of(src.core("method_scope", 4));
   let iss = src.core("iss", 5);
   let (hdr_nonce, opt_nonce) = NONCE_PAIRS[src.core("nonce header/option", 5)];
@@ -405,13 +498,16 @@ fn issuer_body(ctx: &Ctx, src: &mut Src, mk: &dyn Fn(Vec<u32>) -> Case, part: &'
   let sd_alg = src.other("_sd_alg", 3); // sha-256, absent, sha-512 (no hasher)
   let concealable = structure != 4;
   let mut presented = [false; N];
+  let mut dress = Dress::default();
   if concealable {
     for i in 0..N {
       presented[i] = src.other(WITHHOLD[i], 2) == 0;
     }
+    dress.decoys = src.other("decoy-digests", 2) == 1;
+    dress.dup = src.other("digest-twice-in-signed-claims", 4);
   }
   let n_presented = presented.iter().filter(|p| **p).count();
-  let mut tampers = vec![Tamper::None, Tamper::Forged, Tamper::Foreign, Tamper::GarbageNotB64, Tamper::GarbageNotArray];
+  let mut tampers = vec![Tamper::None, Tamper::Forged, Tamper::Foreign, Tamper::GarbageNotB64, Tamper::GarbageNotArray, Tamper::Reencoded];
   if n_presented >= 1 {
     tampers.push(Tamper::Duplicated);
   }
@@ -462,7 +558,7 @@ fn issuer_body(ctx: &Ctx, src: &mut Src, mk: &dyn Fn(Vec<u32>) -> Case, part: &'
     vc_form["credentialStatus"] = s.clone();
   }
   claims["vc"] = vc;
-  let built = sd_encode(&claims, concealable, sd_alg);
+  let built = sd_encode_dressed(&claims, concealable, sd_alg, dress);
   let disclosures = present(&built.disclosures, &presented, tamper);
 
   // ---- token
@@ -476,6 +572,7 @@ fn issuer_body(ctx: &Ctx, src: &mut Src, mk: &dyn Fn(Vec<u32>) -> Case, part: &'
     Some("#m1"),
     Some("m1"),
     Some("urn:uuid:7d1c2f0e-0000-4000-8000-000000000001"),
+    Some("did:vx:issuer2#jx"),
   ][kid];
   let mut header = json!({"alg": "EdDSA", "typ": "JWT"});
   if let Some(k) = kid_str {
@@ -484,17 +581,19 @@ fn issuer_body(ctx: &Ctx, src: &mut Src, mk: &dyn Fn(Vec<u32>) -> Case, part: &'
   if let Some(n) = hdr_nonce {
     header["nonce"] = json!(n);
   }
-  let sign_key = w.key([1u8, 2, 3, 4, 6, 1][sig]);
+  let sign_key_no = [1u8, 2, 3, 4, 6, 1, 11][sig];
+  let sign_key = w.key(sign_key_no);
   let shipped = if sig == 5 { built.payload.replace("\"vx_custom\":7", "\"vx_custom\":8") } else { built.payload.clone() };
   let payload_changed = shipped != built.payload;
   if sig == 5 && !payload_changed {
     ctx.require(false, "issuer: payload tampering did not change the payload");
   }
   let jwt = compact(&header, &built.payload, &shipped, sign_key);
-  let sd_jwt = SdJwt::new(jwt, disclosures, if kb_attached { Some("this.is.not-a-kb-jwt".to_string()) } else { None });
+  let sd_jwt = SdJwt::new(jwt, disclosures.clone(), if kb_attached { Some("this.is.not-a-kb-jwt".to_string()) } else { None });
 
   // ---- options
-  let ovr_str: Option<&str> = [None, Some("did:vx:issuer#m1"), Some("did:vx:issuer#m3"), Some("did:vx:issuer2#j1")][ovr];
+  let ovr_str: Option<&str> =
+    [None, Some("did:vx:issuer#m1"), Some("did:vx:issuer#m3"), Some("did:vx:issuer2#j1"), Some("did:vx:issuer2#jx")][ovr];
   let mut vo = JwsVerificationOptions::new();
   if let Some(n) = opt_nonce {
     vo = vo.nonce(n);
@@ -516,7 +615,9 @@ fn issuer_body(ctx: &Ctx, src: &mut Src, mk: &dyn Fn(Vec<u32>) -> Case, part: &'
   // ---- expected false conditions (from the choices and the table)
   let trusted: &[&str] = match entry {
     0 | 1 => &[I],
-    _ => &[J, I],
+    2 => &[J, I],
+    3 => &[I, J],
+    _ => &[],
   };
   let mut f_sig: BTreeSet<String> = BTreeSet::new();
   let mut open: Vec<&str> = Vec::new();
@@ -545,17 +646,20 @@ fn issuer_body(ctx: &Ctx, src: &mut Src, mk: &dyn Fn(Vec<u32>) -> Case, part: &'
     method_did = Some(did);
     match trusted.iter().find(|t| **t == did) {
       None => {
-        f_sig.insert(format!("issuer-doc:{}", if did == FOREIGN { "foreign-did-method-listed-in-issuer" } else { "untrusted-document" }));
+        // the method's DID must equal the id of a trusted document, also when a trusted document lists the method
+        let listed_in_trusted = trusted.iter().any(|t| listed(t, m));
+        f_sig.insert(format!("issuer-doc:{}", if listed_in_trusted { "foreign-did-method-listed-in-issuer" } else { "untrusted-document" }));
       }
       Some(doc) => match table_lookup(doc, m, scope) {
         None => {
-          f_sig.insert("key-lookup:method-not-in-scope".into());
+          // looked up in the document whose id is the method's DID and nowhere else
+          f_sig.insert(format!("key-lookup:{}", if listed(doc, m) { "method-not-in-scope" } else { "method-not-in-document" }));
         }
         Some(info) => {
           if payload_changed {
             f_sig.insert("signature:payload-changed".into());
-          } else if w.key(info.key).seed != sign_key.seed {
-            f_sig.insert(format!("signature:{}", if sig == 4 { "key-of-another-document" } else { "key-of-another-method" }));
+          } else if info.key != sign_key_no {
+            f_sig.insert(format!("signature:{}", if key_doc(sign_key_no) != *doc { "key-of-another-document" } else { "key-of-another-method" }));
           }
         }
       },
@@ -583,13 +687,29 @@ fn issuer_body(ctx: &Ctx, src: &mut Src, mk: &dyn Fn(Vec<u32>) -> Case, part: &'
     Tamper::Foreign => drop(f_sig.insert("disclosures:foreign".into())),
     Tamper::GarbageNotB64 => drop(f_sig.insert("disclosures:not-base64url".into())),
     Tamper::GarbageNotArray => drop(f_sig.insert("disclosures:not-an-array".into())),
+    Tamper::Reencoded => drop(f_sig.insert("disclosures:same-content-other-bytes".into())),
     Tamper::Duplicated => open.push("a disclosure presented twice"),
     Tamper::Reversed => open.push("disclosures in reversed order"),
     Tamper::None => {}
   }
+  // a digest occurring twice matters only once its disclosure is presented (otherwise both are as good as decoys)
+  let dup_live = match dress.dup {
+    1 | 2 => presented[0],
+    3 => presented[2],
+    _ => false,
+  };
+  if dup_live {
+    open.push("the digest of a presented disclosure occurs twice in the signed claims");
+  }
   match sd_alg {
     1 => open.push("_sd_alg absent"),
-    2 => open.push("_sd_alg names an algorithm without hasher"),
+    2 => {
+      open.push("_sd_alg names an algorithm without hasher");
+      if !disclosures.is_empty() {
+        // the digests were made with sha-256: under the declared algorithm no presented disclosure hashes to one of them
+        f_sig.insert("disclosures:hashed-with-another-algorithm-than-declared".into());
+      }
+    }
     _ => {}
   }
   let mut f_post: BTreeSet<String> = BTreeSet::new();
@@ -622,16 +742,23 @@ fn issuer_body(ctx: &Ctx, src: &mut Src, mk: &dyn Fn(Vec<u32>) -> Case, part: &'
   }
   let must: BTreeSet<String> = if entry == 0 { f_sig.union(&f_post).cloned().collect() } else { f_sig.clone() };
   let all_false: BTreeSet<String> = names(&f_sig).union(&names(&f_post)).cloned().collect();
+  // what an error may rightly blame: a credential naming an issuer outside the trusted list is at odds with the signer
+  // either way (the signer is not trusted, or it is not the named issuer), so both readings are accepted there
+  let mut blameable = all_false.clone();
+  if iss <= 2 && !trusted.contains(&iss_str) && (blameable.contains("issuer-doc") || blameable.contains("issuer-binding")) {
+    blameable.insert("issuer-doc".into());
+    blameable.insert("issuer-binding".into());
+  }
 
   // ---- run
   let validator = SdJwtCredentialValidator::with_signature_verifier(EdDSAJwsVerifier::default(), SdObjectDecoder::new_with_sha256());
   let name = ENTRY[entry].split('[').next().unwrap();
+  let docs: Vec<&CoreDocument> = trusted.iter().map(|d| w.doc(d)).collect();
   let result: Result<Result<_, Vec<JwtValidationError>>, _> = guard(|| match entry {
     0 => validator
       .validate_credential::<_, Object>(&sd_jwt, w.doc(I), &options, if fail_fast_all { FailFast::AllErrors } else { FailFast::FirstError })
       .map_err(|e| e.validation_errors),
-    1 => validator.verify_signature::<_, Object>(&sd_jwt, &[w.doc(I)], &vo).map_err(|e| vec![e]),
-    _ => validator.verify_signature::<_, Object>(&sd_jwt, &[w.doc(J), w.doc(I)], &vo).map_err(|e| vec![e]),
+    _ => validator.verify_signature::<_, Object>(&sd_jwt, &docs, &vo).map_err(|e| vec![e]),
   });
   fx::set_now(NOW);
   let describe = || format!("{} | false: {:?} {:?} | open: {:?}", src.describe(), f_sig, f_post, open);
@@ -648,23 +775,25 @@ fn issuer_body(ctx: &Ctx, src: &mut Src, mk: &dyn Fn(Vec<u32>) -> Case, part: &'
       for c in &must {
         ctx.violation(&format!("{name}|accepted|{c}"), &describe(), &case);
       }
-      match expected_credential(&vc_form, concealable, &presented) {
-        Ok(want) => {
-          if decoded.credential != want {
-            ctx.violation(
-              &format!("{name}|accepted|credential-differs-from-signed-minus-withheld"),
-              &format!("got {} want {} | {}", serde_json::to_string(&decoded.credential).unwrap_or_default(), serde_json::to_string(&want).unwrap_or_default(), describe()),
-              &case,
-            );
+      if !dup_live {
+        match expected_credential(&vc_form, concealable, &presented) {
+          Ok(want) => {
+            if decoded.credential != want {
+              ctx.violation(
+                &format!("{name}|accepted|credential-differs-from-signed-minus-withheld"),
+                &format!("got {} want {} | {}", serde_json::to_string(&decoded.credential).unwrap_or_default(), serde_json::to_string(&want).unwrap_or_default(), describe()),
+                &case,
+              );
+            }
           }
+          Err(e) => ctx.require(false, &format!("issuer: {e}")),
         }
-        Err(e) => ctx.require(false, &format!("issuer: {e}")),
       }
       if decoded.header.kid() != kid_str || decoded.header.nonce() != hdr_nonce {
         ctx.violation(&format!("{name}|accepted|header-differs-from-signed"), &describe(), &case);
       }
-      let want_custom: Object = [("vx_custom".to_string(), json!(7))].into_iter().collect();
-      if decoded.custom_claims.as_ref() != Some(&want_custom) {
+      // the signed custom claim comes back with its signed value (whatever else the map may carry)
+      if decoded.custom_claims.as_ref().and_then(|c| c.get("vx_custom")) != Some(&json!(7)) {
         ctx.violation(&format!("{name}|accepted|custom-claims-differ-from-signed"), &format!("{:?} | {}", decoded.custom_claims, describe()), &case);
       }
       label = "accepted".to_string();
@@ -675,18 +804,19 @@ fn issuer_body(ctx: &Ctx, src: &mut Src, mk: &dyn Fn(Vec<u32>) -> Case, part: &'
       if errors.is_empty() {
         ctx.violation(&format!("{name}|rejected|no-error-reported"), &describe(), &case);
       }
+      if !fail_fast_all && errors.len() > 1 {
+        // FailFast::FirstError: "Return after the first error occurs."
+        ctx.violation(&format!("{name}|rejected|more-than-one-error-where-one-is-specified"), &format!("{blamed:?} | {}", describe()), &case);
+      }
       if open.is_empty() {
         for (b, e) in blamed.iter().zip(&errors) {
-          if !all_false.contains(*b) {
+          if !blame_justified(b, &blameable) {
             ctx.violation(&format!("{name}|rejected-blaming-a-condition-that-holds|{b}"), &format!("error: {e} / {e:?} | {}", describe()), &case);
           }
         }
-        if !f_sig.is_empty() || !fail_fast_all {
-          if errors.len() > 1 {
-            ctx.violation(&format!("{name}|rejected|more-than-one-error-where-one-is-specified"), &format!("{blamed:?} | {}", describe()), &case);
-          }
-        } else if entry == 0 {
-          // signature stage holds, AllErrors: every false condition is reported
+        if f_sig.is_empty() && fail_fast_all && entry == 0 && !blamed.contains(&"other") {
+          // signature stage holds, FailFast::AllErrors ("Return all errors that occur during validation"): every false
+          // condition is reported, in whatever order
           for c in names(&f_post) {
             if !blamed.contains(&c.as_str()) {
               ctx.violation(&format!("{name}|AllErrors|false-condition-not-reported|{c}"), &format!("{blamed:?} | {}", describe()), &case);
@@ -699,9 +829,11 @@ fn issuer_body(ctx: &Ctx, src: &mut Src, mk: &dyn Fn(Vec<u32>) -> Case, part: &'
     }
   }
   // "the same issuer, kid, scope and nonce rules ... the same date, structure and status checks as a plain JWT
-  // credential": with unobjectionable disclosures the verdict equals that of JwtCredentialValidator on the same claims
-  // (nothing concealed), same header, same key, same options.
-  if tamper == Tamper::None && sd_alg == 0 && !(presented[3] && !presented[4]) {
+  // credential": with unobjectionable disclosures accepted/rejected equals the verdict of JwtCredentialValidator on the same
+  // claims (nothing concealed), same header, same key, same options, same trusted documents. Which of several false
+  // conditions either of them reports first is promised nowhere: whether the error variants agree is recorded only.
+  let mut differential = "none";
+  if tamper == Tamper::None && sd_alg != 2 && !(presented[3] && !presented[4]) && !dup_live {
     let plain_payload = claims.to_string();
     let plain_shipped = if sig == 5 { plain_payload.replace("\"vx_custom\":7", "\"vx_custom\":8") } else { plain_payload.clone() };
     let plain = Jwt::new(compact(&header, &plain_payload, &plain_shipped, sign_key));
@@ -711,8 +843,7 @@ fn issuer_body(ctx: &Ctx, src: &mut Src, mk: &dyn Fn(Vec<u32>) -> Case, part: &'
       0 => pv
         .validate::<_, Object>(&plain, w.doc(I), &options, if fail_fast_all { FailFast::AllErrors } else { FailFast::FirstError })
         .map_err(|e| e.validation_errors),
-      1 => pv.verify_signature::<_, Object>(&plain, &[w.doc(I)], &vo).map_err(|e| vec![e]),
-      _ => pv.verify_signature::<_, Object>(&plain, &[w.doc(J), w.doc(I)], &vo).map_err(|e| vec![e]),
+      _ => pv.verify_signature::<_, Object>(&plain, &docs, &vo).map_err(|e| vec![e]),
     });
     fx::set_now(NOW);
     let plain_verdict: Vec<&'static str> = match &r {
@@ -720,15 +851,27 @@ fn issuer_body(ctx: &Ctx, src: &mut Src, mk: &dyn Fn(Vec<u32>) -> Case, part: &'
       Ok(Ok(_)) => vec!["accepted"],
       Ok(Err(es)) => es.iter().map(|e| e.into()).collect(),
     };
-    if plain_verdict != sd_verdict {
+    let accepted = |v: &Vec<&'static str>| v.len() == 1 && v[0] == "accepted";
+    if plain_verdict == ["panic"] || sd_verdict == ["panic"] {
+      // a panic of the SD-JWT validator is reported above; one of the plain validator is C02's subject
+      differential = "panic";
+    } else if accepted(&plain_verdict) != accepted(&sd_verdict) {
+      differential = "verdict-differs";
       ctx.violation(
-        &format!("{name}|verdict-differs-from-plain-jwt-credential|sd-jwt={}|plain={}", sd_verdict.join("+"), plain_verdict.join("+")),
-        &describe(),
+        &format!("{name}|verdict-differs-from-plain-jwt-credential|sd-jwt={}|plain={}", if accepted(&sd_verdict) { "accepted" } else { "rejected" }, if accepted(&plain_verdict) { "accepted" } else { "rejected" }),
+        &format!("sd-jwt: {sd_verdict:?} plain: {plain_verdict:?} | {}", describe()),
         &case,
       );
+    } else {
+      let (mut a, mut b) = (sd_verdict.clone(), plain_verdict.clone());
+      a.sort();
+      b.sort();
+      differential = if a == b { "same" } else { "same-verdict-other-error-variants" };
     }
   }
-  ctx.outcome(&format!("{part}:{}:{label}", ["validate", "verify1", "verify2"][entry]));
+  // recorded, not judged: the plain validator agreed on accepted/rejected but reported other error variants
+  let noted = if differential == "same-verdict-other-error-variants" || differential == "panic" { format!(" [plain-jwt:{differential}]") } else { String::new() };
+  ctx.outcome(&format!("{part}:{}:{label}{noted}", ENTRY_SHORT[entry]));
   if !label.starts_with("rejected:jws-wellformed") {
     ctx.distinct(&(part, src.core.map(|c| c.to_vec()), src.ch.seq()));
   }
@@ -757,7 +900,7 @@ static TYPS: Lazy<Vec<Option<&'static str>>> = Lazy::new(|| {
       v.push(lib);
     }
   }
-  for t in [Some("JWT"), None, Some("KB+JWT"), Some("kb+jwt ")] {
+  for t in [Some("JWT"), None, Some("KB+JWT"), Some("kb+jwt "), Some("vc+kb+jwt"), Some("kb+jwt+x")] {
     if !v.contains(&t) {
       v.push(t);
     }
@@ -792,11 +935,13 @@ fn typ_class(t: Option<&str>) -> &'static str {
     Some("KB+JWT") => "upper-case",
     Some(" kb+jwt") => "leading-space",
     Some("kb+jwt ") => "trailing-space",
+    Some("vc+kb+jwt") => "prefixed",
+    Some("kb+jwt+x") => "suffixed",
     Some(_) => "other",
   }
 }
 fn kb_core_dims() -> [usize; 7] {
-  [typ_alphabet().len(), 2, 4, 7, 4, 4, 2]
+  [typ_alphabet().len(), 2, 5, 7, 5, 4, 2]
 }
 
 fn blame_kb(e: &KeyBindingJwtError) -> &'static str {
@@ -804,12 +949,12 @@ fn blame_kb(e: &KeyBindingJwtError) -> &'static str {
     KeyBindingJwtError::MissingKeyBindingJwt => "kb-present",
     KeyBindingJwtError::InvalidHeaderTypValue => "typ",
     KeyBindingJwtError::JwtValidationError(inner) => match inner {
-      JwtValidationError::MethodDataLookupError { .. } => "key-lookup",
+      // the key could not be taken from the supplied document / the method is not one of that document
+      JwtValidationError::MethodDataLookupError { .. } | JwtValidationError::DocumentMismatch { .. } | JwtValidationError::IdentifierMismatch { .. } => "key-lookup",
       JwtValidationError::Signature { .. } => "signature",
-      JwtValidationError::JwsDecodingError(JoseError::SignatureVerificationError(_))
-      | JwtValidationError::JwsDecodingError(JoseError::KeyError(_))
-      | JwtValidationError::JwsDecodingError(JoseError::ProtectedHeaderWithoutAlg) => "signature",
-      JwtValidationError::JwsDecodingError(_) => "jws-wellformed",
+      // both tokens are well-formed compact JWS wherever rejections are judged (a garbage issuer part is an open
+      // alternative): a JOSE error can then only be about verifying the signature (key, alg, signature bytes)
+      JwtValidationError::JwsDecodingError(_) => "signature",
       _ => "other",
     },
     KeyBindingJwtError::DeserializationError(_) => "claims-wellformed",
@@ -838,9 +983,10 @@ fn kb_body(ctx: &Ctx, src: &mut Src, mk: &dyn Fn(Vec<u32>) -> Case, part: &'stat
   let typs = typ_alphabet();
   let typ = typs[src.core("typ", typs.len())];
   let alg = ["EdDSA", "ES256"][src.core("alg", 2)];
-  let sig = src.core("signing-key", 4); // h1, h2 (another key of the holder), mallory's key, h1 + payload changed after signing
+  // h1, h2 (another key of the holder), mallory's key, h1 + payload changed after signing, the key of the foreign-DID method hf
+  let sig = src.core("signing-key", 5);
   let kid = src.core("kid", 7);
-  let ovr = src.core("method_id", 4);
+  let ovr = src.core("method_id", 5);
   let scope = Scope::of([0usize, 2, 1, 3][src.core("method_scope", 4)]); // None, authentication, assertionMethod, VerificationMethod
   let holder_doc = [H, F][src.core("holder-document", 2)];
   // ---- the rest
@@ -868,14 +1014,25 @@ fn kb_body(ctx: &Ctx, src: &mut Src, mk: &dyn Fn(Vec<u32>) -> Case, part: &'stat
   let hash = hashes[src.other("sd_hash", hashes.len())];
   let nonce_claim = [Some("nonce-1"), Some("nonce-2"), None][src.other("nonce-claim", 3)];
   let nonce_opt = [None, Some("nonce-1"), Some("nonce-2")][src.other("nonce-option", 3)];
-  let aud_claim = [Some("did:vx:verifier"), Some("did:vx:verifier2"), None][src.other("aud-claim", 3)];
+  // aud claim: a string, another string, absent, an array holding the first, an array holding both (the other one first)
+  let aud_kind = src.other("aud-claim", 5);
+  let aud_values: &[&str] =
+    [&["did:vx:verifier"][..], &["did:vx:verifier2"][..], &[][..], &["did:vx:verifier"][..], &["did:vx:verifier2", "did:vx:verifier"][..]][aud_kind];
+  let aud_claim: Option<&str> = if aud_kind <= 1 { Some(aud_values[0]) } else { None };
   let aud_opt = [None, Some("did:vx:verifier"), Some("did:vx:verifier2")][src.other("aud-option", 3)];
-  // iat: in range, first second of year 10000, last second of year -1, not an integer
-  let iat_kind = src.other("iat", 4);
-  let iat: i64 = [IAT0, 253_402_300_800, -62_167_219_201, IAT0][iat_kind];
+  // iat: in range, first second of year 10000, last second of year -1, a string, an integral float, a fractional float, absent
+  let iat_kind = src.other("iat", 7);
+  let iat: i64 = [IAT0, 253_402_300_800, -62_167_219_201, IAT0, IAT0, IAT0, IAT0][iat_kind];
+  // the instant the claim denotes (NumericDate), where it denotes one
+  let iat_instant: Option<f64> = match iat_kind {
+    5 => Some(IAT0 as f64 + 0.5),
+    6 => None,
+    _ => Some(iat as f64),
+  };
   let earliest = [None, Some(IAT0), Some(IAT0 + 1), Some(IAT0 - 1)][src.other("earliest_issuance_date", 4)];
   let latest = [None, Some(IAT0), Some(IAT0 - 1), Some(IAT0 + 1)][src.other("latest_issuance_date", 4)];
   let clock = [IAT0 + 10, IAT0, IAT0 - 1][src.other("clock", 3)];
+  let extra_claims = src.other("additional-claims", 2) == 1;
   let case = mk(src.ch.seq());
   fx::set_now(clock);
 
@@ -921,10 +1078,23 @@ fn kb_body(ctx: &Ctx, src: &mut Src, mk: &dyn Fn(Vec<u32>) -> Case, part: &'stat
   let mut kb_claims = json!({});
   match iat_kind {
     3 => kb_claims["iat"] = json!(IAT0.to_string()),
+    4 => kb_claims["iat"] = json!(IAT0 as f64),
+    5 => kb_claims["iat"] = json!(IAT0 as f64 + 0.5),
+    6 => {}
     _ => kb_claims["iat"] = json!(iat),
   }
-  if let Some(a) = aud_claim {
-    kb_claims["aud"] = json!(a);
+  match aud_kind {
+    0 | 1 => kb_claims["aud"] = json!(aud_values[0]),
+    2 => {}
+    _ => kb_claims["aud"] = json!(aud_values),
+  }
+  let extra: std::collections::BTreeMap<String, Value> = if extra_claims {
+    [("vx_extra".to_string(), json!({"a": [1, 2]})), ("sub".to_string(), json!(H))].into_iter().collect()
+  } else {
+    Default::default()
+  };
+  for (k, v) in &extra {
+    kb_claims[k.as_str()] = v.clone();
   }
   if let Some(n) = nonce_claim {
     kb_claims["nonce"] = json!(n);
@@ -941,8 +1111,12 @@ fn kb_body(ctx: &Ctx, src: &mut Src, mk: &dyn Fn(Vec<u32>) -> Case, part: &'stat
   if let Some(k) = kid_str {
     header["kid"] = json!(k);
   }
-  let sign_key = w.key([7u8, 8, 10, 7][sig]);
+  let sign_key_no = [7u8, 8, 10, 7, 9][sig];
+  let sign_key = w.key(sign_key_no);
   let signed = kb_claims.to_string();
+  if (iat_kind == 4 && !signed.contains(".0")) || (iat_kind == 5 && !signed.contains(".5")) {
+    ctx.require(false, "kb: the float iat was not serialised as a float");
+  }
   let shipped = if sig == 3 {
     let mut c = kb_claims.clone();
     c["vx_added_after_signing"] = json!(true);
@@ -954,7 +1128,8 @@ fn kb_body(ctx: &Ctx, src: &mut Src, mk: &dyn Fn(Vec<u32>) -> Case, part: &'stat
   let sd_jwt = SdJwt::new(jwt.clone(), disclosures.clone(), if kb_absent { None } else { Some(kb_jwt) });
 
   // ---- options
-  let ovr_str: Option<&str> = [None, Some("did:vx:holder#h1"), Some("did:vx:holder#h2"), Some("did:vx:mallory#h1")][ovr];
+  let ovr_str: Option<&str> =
+    [None, Some("did:vx:holder#h1"), Some("did:vx:holder#h2"), Some("did:vx:mallory#h1"), Some("did:vx:foreign#hf")][ovr];
   let mut vo = JwsVerificationOptions::new();
   if let Some(s) = scope.real() {
     vo = vo.method_scope(s);
@@ -982,8 +1157,11 @@ fn kb_body(ctx: &Ctx, src: &mut Src, mk: &dyn Fn(Vec<u32>) -> Case, part: &'stat
   if kb_absent {
     f.insert("kb-present".into());
   } else {
-    if typ != Some("kb+jwt") {
-      f.insert(format!("typ:{}", typ_class(typ)));
+    match typ {
+      Some("kb+jwt") => {}
+      // media type names are case-insensitive (RFC 7515 4.1.9 / RFC 2045): a typ differing in case only is left open
+      Some("KB+JWT") => open.push("typ differs from kb+jwt in case only"),
+      t => drop(f.insert(format!("typ:{}", typ_class(t)))),
     }
     let method_id: Option<&str> = match (ovr_str, kid) {
       (Some(m), _) => Some(m),
@@ -998,22 +1176,30 @@ fn kb_body(ctx: &Ctx, src: &mut Src, mk: &dyn Fn(Vec<u32>) -> Case, part: &'stat
       (None, _) => kid_str,
     };
     if let Some(m) = method_id {
-      if m.starts_with(FOREIGN) && holder_doc == H {
-        open.push("foreign-DID method listed in the holder document");
-      } else {
-        match table_lookup(holder_doc, m, scope) {
-          None => {
-            let did = m.split('#').next().unwrap();
-            f.insert(format!("key-lookup:{}", if did != holder_doc { "method-of-another-document" } else { "method-not-in-scope" }));
-          }
-          Some(info) => {
-            if alg != "EdDSA" {
-              f.insert("signature:alg-not-of-the-key".into());
-            } else if sig == 3 {
-              f.insert("signature:payload-changed".into());
-            } else if w.key(info.key).seed != sign_key.seed {
-              f.insert(format!("signature:{}", if sign_key.seed == 10 || info.key == 10 { "key-of-another-document" } else { "key-of-another-method" }));
-            }
+      let did = m.split('#').next().unwrap();
+      if did != holder_doc && listed(holder_doc, m) {
+        // "a key of the supplied holder document", though of another DID: whether such a method may bind is left open,
+        // but if it does, it binds under ITS key, within the scope
+        open.push("method of another DID listed in the supplied holder document");
+      }
+      match table_lookup(holder_doc, m, scope) {
+        None => {
+          let class = if listed(holder_doc, m) {
+            "method-not-in-scope"
+          } else if did != holder_doc {
+            "method-of-another-document"
+          } else {
+            "method-not-in-document"
+          };
+          f.insert(format!("key-lookup:{class}"));
+        }
+        Some(info) => {
+          if alg != "EdDSA" {
+            f.insert("signature:alg-not-of-the-key".into());
+          } else if sig == 3 {
+            f.insert("signature:payload-changed".into());
+          } else if info.key != sign_key_no {
+            f.insert(format!("signature:{}", if key_doc(sign_key_no) != holder_doc || key_doc(info.key) != holder_doc { "key-of-another-document" } else { "key-of-another-method" }));
           }
         }
       }
@@ -1045,20 +1231,25 @@ fn kb_body(ctx: &Ctx, src: &mut Src, mk: &dyn Fn(Vec<u32>) -> Case, part: &'stat
       open.push("nonce claim absent, no nonce required");
     }
     if let Some(a) = aud_opt {
-      if aud_claim != Some(a) {
-        f.insert(format!("aud:{}", if aud_claim.is_none() { "claim-absent" } else { "differs" }));
+      // an array-valued aud (RFC 7519 4.1.3) names every member
+      if !aud_values.contains(&a) {
+        f.insert(format!("aud:{}", if aud_values.is_empty() { "claim-absent" } else { "differs" }));
       }
     }
-    if aud_claim.is_none() && aud_opt.is_none() {
+    if aud_kind == 2 && aud_opt.is_none() {
       open.push("aud claim absent, no aud required");
     }
-    match iat_kind {
-      3 => open.push("iat is a string"),
-      _ => {
-        let too_early = earliest.map_or(false, |e| iat < e);
+    if aud_kind >= 3 {
+      open.push("aud is an array");
+    }
+    match iat_instant {
+      None => drop(f.insert("iat:absent".into())),
+      Some(at) => {
+        // whatever the JSON shape of the claim, the instant it denotes has to lie in the window
+        let too_early = earliest.map_or(false, |e| at < e as f64);
         let too_late = match latest {
-          Some(l) => iat > l,
-          None => iat > clock,
+          Some(l) => at > l as f64,
+          None => at > clock as f64,
         };
         if too_early {
           f.insert("iat:before-earliest".into());
@@ -1069,20 +1260,31 @@ fn kb_body(ctx: &Ctx, src: &mut Src, mk: &dyn Fn(Vec<u32>) -> Case, part: &'stat
         if iat_kind == 2 && !too_early {
           open.push("iat before year 0 without earliest bound");
         }
+        match iat_kind {
+          3 => open.push("iat is a string"),
+          4 => open.push("iat is a float with an integral value"),
+          5 => open.push("iat is a float with a fraction"),
+          _ => {}
+        }
       }
+    }
+    if extra_claims {
+      open.push("KB-JWT carries additional claims");
     }
     if sd_alg == 1 {
       open.push("_sd_alg absent");
     }
     if sd_alg == 2 {
       open.push("_sd_alg names an algorithm without hasher");
+      // sd_hash was made with sha-256: it is not the hash under the declared algorithm
+      f.insert("sd_hash:hashed-with-another-algorithm-than-declared".into());
     }
     if issuer_jwt_garbage {
       open.push("issuer-signed part is not a JWS");
     }
   }
   let mut all_false = names(&f);
-  if !kb_absent && (hash == Hash::Absent || nonce_claim.is_none() || aud_claim.is_none() || iat_kind == 3) {
+  if !kb_absent && (hash == Hash::Absent || nonce_claim.is_none() || aud_kind >= 2 || iat_kind >= 3) {
     // a missing or mistyped member may be reported as such
     all_false.insert("claims-wellformed".into());
   }
@@ -1102,14 +1304,19 @@ fn kb_body(ctx: &Ctx, src: &mut Src, mk: &dyn Fn(Vec<u32>) -> Case, part: &'stat
       for c in &f {
         ctx.violation(&format!("{KB}|accepted|{c}"), &describe(), &case);
       }
-      if iat_kind == 3 || Some(got.iat) != Some(iat) || Some(got.aud.as_str()) != aud_claim || Some(got.nonce.as_str()) != nonce_claim || Some(&got.sd_hash) != sd_hash.as_ref() {
+      // the claims handed back are the signed ones (a fractional iat and an array aud have no counterpart in the types)
+      let iat_same = iat_kind >= 5 || got.iat == iat;
+      let aud_same = aud_kind >= 3 || Some(got.aud.as_str()) == aud_claim;
+      if !iat_same || !aud_same || Some(got.nonce.as_str()) != nonce_claim || Some(&got.sd_hash) != sd_hash.as_ref() || got.properties != extra {
         ctx.violation(&format!("{KB}|accepted|returned-claims-differ-from-signed"), &format!("{got:?} | {}", describe()), &case);
       }
       label = "accepted".to_string();
     }
     Ok(Err(e)) => {
       let b = blame_kb(&e);
-      if open.is_empty() && !all_false.contains(b) {
+      // a variant the check does not know is judged only when nothing at all is false
+      let justified = if b == "other" { !all_false.is_empty() } else { all_false.contains(b) };
+      if open.is_empty() && !justified {
         ctx.violation(&format!("{KB}|rejected-blaming-a-condition-that-holds|{b}"), &format!("error: {e} / {e:?} | {}", describe()), &case);
       }
       label = format!("rejected:{}", kb_variant(&e));
@@ -1205,12 +1412,14 @@ fn generate(ctx: &Ctx) {
   ctx.rule("E1 choice DFS over hand-assembled, harness-signed SD-JWTs and KB-JWTs; alternative 0 of every point is the benign one. (a),(c): every choice sequence with at most B deviations; (b),(d): full product of the binding-core tuple crossed with at most B' deviations of the remaining points. distinct_nontrivial = distinct (part, core tuple, choice sequence) whose outcome is not the trivial early reject (undecodable token / KB-JWT absent)");
   ctx.assume("Ed25519 (iota-crypto) signing in the harness and SHA-256 (sha2) are correct; sd-jwt-payload 0.2's SdObjectEncoder::conceal with fixed salts produces the disclosures and digests of the draft (the decoder side is under test together with the validator)");
   ctx.assume("the document table in the check (METHODS) describes the documents built from it through CoreDocument::builder; method resolution itself is the subject of C04/C02");
+  ctx.assume("left open (executed, recorded, rejections not judged; an acceptance still has to satisfy every condition that can be evaluated): kid given as a fragment, issuer with DID URL parts, a disclosure presented twice / in reversed order, a digest of a presented disclosure occurring twice in the signed claims, _sd_alg absent or naming an algorithm without hasher, a method of another DID listed in the supplied holder document, typ differing from kb+jwt in case only, iat as string or float, aud as array, additional KB-JWT claims, absent nonce/aud claim with no value required, iat before year 0 without earliest bound");
   ctx.assume("typ: the property says `kb+jwt`; sd-jwt-payload 0.2.1 publishes KB_JWT_HEADER_TYP = \" kb+jwt\" (leading space). Alternative 0 of the typ point is the literal `kb+jwt` if the validator accepts the benign token typed so, else the library constant (see bounds.typ_alphabet); the oracle judges against the literal in either case");
   Lazy::force(&WORLD);
-  let b = ctx.by_tier(2u32, 3u32);
+  let b = ctx.by_tier(3u32, 4u32);
   ctx.bound("deviation_bound", b);
   ctx.bound("core_product_other_deviations", ctx.by_tier(0u32, 1u32));
-  ctx.bound("issuer_core_dims(entry,key,kid,method_id,scope,iss,nonce-pair)", ISSUER_CORE_DIMS);
+  ctx.bound("issuer_core_dims(entry+trusted-list,key,kid,method_id,scope,iss,nonce-pair)", ISSUER_CORE_DIMS);
+  ctx.bound("issuer_entries", ENTRY);
   ctx.bound("kb_core_dims(typ,alg,key,kid,method_id,scope,holder-document)", kb_core_dims());
   ctx.bound("typ_alphabet", typ_alphabet());
 
